@@ -581,12 +581,16 @@ struct Pending { case_id: u64, stream: String, req: String, doc_targets: Vec<Obj
 fn run_batch(c: &mut Ctx, batch: Vec<Pending>, docs: &[Document]) {
     if batch.is_empty() { return; }
     let lines: Vec<String> = batch.iter().map(|p| p.req.clone()).collect();
-    let replies = crate::iso::run_isolated("C13", &lines, TIMEOUT_MS * 4, MEM_MB);
+    let single = lines.iter().all(|l| l.split(' ').nth(1).map(|m| m.starts_with("one=")).unwrap_or(false));
+    let replies = crate::iso::run_isolated("C13", &lines, if single { TIMEOUT_MS } else { TIMEOUT_MS * 4 }, MEM_MB);
     for ((p, reply), doc) in batch.into_iter().zip(replies.into_iter()).zip(docs.iter()) {
         c.cur = p.case_id;
         let mode = p.req.split(' ').nth(1).unwrap_or("all").to_string();
         let mut fields: Vec<(String, String)> = vec![];
-        if reply == "timeout" || reply.starts_with("abort") || reply.is_empty() {
+        let dead = reply == "timeout" || reply.starts_with("abort") || reply.is_empty();
+        if dead && mode.starts_with("one=") {
+            fields.push((mode[4..].to_string(), format!("!{}", reply.replace(' ', "_"))));
+        } else if dead {
             c.count("isolated.rerun_per_field");
             let names: Vec<String> = if let Some(f) = mode.strip_prefix("one=") { vec![f.to_string()] }
                 else { field_names(&p.doc_targets).into_iter().filter(|f| mode != "nowalk" || !is_walker(f)).collect() };
@@ -611,7 +615,7 @@ fn run_batch(c: &mut Ctx, batch: Vec<Pending>, docs: &[Document]) {
         }
         // correspondence (the `text` field is oracle-only: content parser / filters / CMaps are other properties)
         let corr_reply: String = fields.iter().filter(|(f, _)| f != "text").map(|(f, v)| format!("{}={}", f, v)).collect::<Vec<_>>().join(" ");
-        c.corr(p.req.clone(), corr_reply);
+        if !corr_reply.is_empty() { c.corr(p.req.clone(), corr_reply); }
         // oracle: every query returns a value or an error
         for (f, v) in &fields {
             let q = f.split(':').next().unwrap();
@@ -683,4 +687,131 @@ documents in which the independent graph analysis finds Next/First/Kids cycles (
         batch.push(Pending { case_id: c.cur, stream: "chaos".into(), req, doc_targets: targets, hazard: hz }); docs.push(doc);
     }
     run_batch(c, batch, &docs);
+    known_streams(c);
+}
+
+// ------------------------------------------------------------------------------------------
+// known-finding territory: cyclic link structures, attacker-chosen Count, canonical witnesses
+// ------------------------------------------------------------------------------------------
+
+/// catalog 1, page-tree root 2 with one page 3, plus the given catalog entries and objects
+fn mini(cat_extra: Vec<(&str, Object)>, objs: Vec<(u32, Object)>) -> Document {
+    let mut doc = Document::with_version("1.5");
+    let mut cat = dict(vec![("Type", name("Catalog")), ("Pages", rf((2, 0)))]);
+    for (k, v) in cat_extra { cat.set(k, v); }
+    doc.objects.insert((1, 0), Object::Dictionary(cat));
+    doc.objects.insert((2, 0), Object::Dictionary(dict(vec![("Type", name("Pages")), ("Kids", Object::Array(vec![rf((3, 0))])), ("Count", Object::Integer(1))])));
+    doc.objects.insert((3, 0), Object::Dictionary(dict(vec![("Type", name("Page")), ("Parent", rf((2, 0)))])));
+    for (n, o) in objs { doc.objects.insert((n, 0), o); }
+    doc.trailer.set("Root", rf((1, 0)));
+    doc
+}
+fn fit_dest() -> Object { Object::Array(vec![rf((3, 0)), name("Fit")]) }
+fn item(kv: Vec<(&str, Object)>) -> Object { let mut d = dict(vec![("Title", lit(b"T"))]); for (k, v) in kv { d.set(k, v); } Object::Dictionary(d) }
+fn outlines_to(_first: u32) -> Vec<(&'static str, Object)> { vec![("Outlines", rf((10, 0)))] }
+
+/// root Kids = [page 3, Pages nodes 20.. with the given Count values]
+fn count_doc(counts: &[i64]) -> Document {
+    let mut doc = mini(vec![], vec![]);
+    let mut kids = vec![rf((3, 0))];
+    for (i, c) in counts.iter().enumerate() {
+        let id = 20 + i as u32; kids.push(rf((id, 0)));
+        doc.objects.insert((id, 0), Object::Dictionary(dict(vec![("Type", name("Pages")), ("Kids", Object::Array(vec![])), ("Count", Object::Integer(*c))])));
+    }
+    doc.objects.insert((2, 0), Object::Dictionary(dict(vec![("Type", name("Pages")), ("Kids", Object::Array(kids)), ("Count", Object::Integer(1))])));
+    doc
+}
+
+fn cyclic_doc(r: &mut Rng, kind: u64) -> Document {
+    let with_dest = r.chance(1, 2);
+    let d = |kv: Vec<(&str, Object)>| { let mut kv = kv; if with_dest { kv.push(("Dest", fit_dest())); } item(kv) };
+    let root = Object::Dictionary(dict(vec![("Type", name("Outlines")), ("First", rf((11, 0)))]));
+    match kind {
+        0 => mini(outlines_to(11), vec![(10, root), (11, d(vec![("Next", rf((11, 0)))]))]),
+        1 => mini(outlines_to(11), vec![(10, root), (11, d(vec![("Next", rf((12, 0)))])), (12, d(vec![("Next", rf((11, 0)))]))]),
+        2 => mini(outlines_to(11), vec![(10, root), (11, d(vec![("First", rf((11, 0)))]))]),
+        3 => mini(outlines_to(11), vec![(10, root), (11, d(vec![("First", rf((12, 0)))])), (12, d(vec![("First", rf((11, 0)))]))]),
+        4 => mini(vec![("Dests", rf((15, 0)))], vec![(15, Object::Dictionary(dict(vec![("Kids", Object::Array(vec![rf((15, 0))]))])))]),
+        _ => mini(vec![("Names", Object::Dictionary(dict(vec![("Dests", rf((15, 0)))])))], vec![
+            (15, Object::Dictionary(dict(vec![("Kids", Object::Array(vec![rf((16, 0))]))]))), (16, Object::Dictionary(dict(vec![("Kids", Object::Array(vec![rf((15, 0))]))])))]),
+    }
+}
+
+fn known_streams(c: &mut Ctx) {
+    // ---------------- cyclic Next / First / Kids (F-C13-b, F-C13-b2, F-C13-d4)
+    let mut batch = vec![]; let mut docs = vec![];
+    let n = c.n(6, 36);
+    for i in 0..n {
+        let Some(mut r) = c.case("cyclic", i) else { continue };
+        let kind = i % 6;
+        let doc = cyclic_doc(&mut r, kind);
+        let targets = vec![(15, 0)];
+        let hz = analyse(&doc, &targets);
+        let fields: Vec<&str> = if kind < 4 { vec!["outl", "toc"] } else if kind == 4 { vec!["dests", "nd:15_0", "outl"] } else { vec!["dests", "toc"] };
+        for f in fields {
+            let req = request(&format!("one={}", f), &targets, &doc);
+            c.nontrivial(&req); c.count(&format!("cyclic.kind{}", kind));
+            batch.push(Pending { case_id: c.cur, stream: "cyclic".into(), req, doc_targets: targets.clone(), hazard: hz.clone() }); docs.push(doc.clone());
+        }
+    }
+    run_batch(c, batch, &docs);
+    // ---------------- attacker-chosen Count in Pages nodes (F-C13-f*)
+    const B12: i64 = 768614336404564649; // largest Count for which (Count+1)*12 <= isize::MAX
+    const B8: i64 = 1152921504606846974; // same for 8-byte elements
+    let specials: [i64; 14] = [1 << 36, 1 << 40, 1 << 59, 1 << 60, 1 << 62, i64::MAX, B12 - 1, B12, B12 + 1, B8 - 1, B8, B8 + 1, i64::MAX - 1, 1 << 50];
+    let mut batch = vec![]; let mut docs = vec![];
+    for i in 0..c.n(16, 120) {
+        let Some(mut r) = c.case("count", i) else { continue };
+        let k = if (i as usize) < specials.len() { 1 } else { 1 + r.usize(4) };
+        let counts: Vec<i64> = if i == 14 || i == 15 { vec![i64::MAX, i64::MAX, if i == 14 { 1 } else { 2 }] } else { (0..k).map(|j| if (i as usize) < specials.len() && j == 0 { specials[i as usize] } else if r.chance(1, 4) { r.range(-5, 5) } else { *r.pick(&specials) }).collect() };
+        let doc = count_doc(&counts);
+        let targets = vec![(3, 0)];
+        let hz = analyse(&doc, &targets);
+        let fields: Vec<&str> = if i % 5 == 0 { vec!["pages", "iter", "op:3_0", "toc", "text"] } else { vec!["pages", "iter"] };
+        for f in fields {
+            let req = request(&format!("one={}", f), &targets, &doc);
+            c.nontrivial(&req); c.count("count.cases");
+            batch.push(Pending { case_id: c.cur, stream: "count".into(), req, doc_targets: targets.clone(), hazard: hz.clone() }); docs.push(doc.clone());
+        }
+    }
+    run_batch(c, batch, &docs);
+    // ---------------- canonical witnesses of the registered findings
+    let root = |first: u32| Object::Dictionary(dict(vec![("Type", name("Outlines")), ("First", rf((first, 0)))]));
+    let img = |cs: Object| stream(dict(vec![("Subtype", name("Image")), ("Width", Object::Integer(1)), ("Height", Object::Integer(1)), ("ColorSpace", cs)]), b"");
+    let mut pg = dict(vec![("Type", name("Page")), ("Parent", rf((2, 0)))]);
+    pg.set("Resources", Object::Dictionary(dict(vec![("XObject", Object::Dictionary(dict(vec![("Im1", rf((30, 0)))])))])));
+    let names_doc = |key: Object, val: Object, extra: Vec<(u32, Object)>| mini(vec![("Dests", Object::Dictionary(dict(vec![("Names", Object::Array(vec![key, val]))])))], extra);
+    let w: Vec<(&str, &str, Document, &str, String)> = vec![
+        ("F-C13-a", "pi:3_0", { let mut d = mini(vec![], vec![(30, img(Object::Array(vec![])))]); d.objects.insert((3, 0), Object::Dictionary(pg.clone())); d },
+            "panic@src/document.rs", "get_page_images: ColorSpace [] -> array[0]".into()),
+        ("F-C13-b", "outl", mini(outlines_to(11), vec![(10, root(11)), (11, item(vec![("Next", rf((11, 0)))]))]), "diverge", "get_outlines: cyclic Next never terminates".into()),
+        ("F-C13-b", "toc", mini(outlines_to(11), vec![(10, root(11)), (11, item(vec![("Next", rf((11, 0))), ("Dest", fit_dest())]))]), "diverge", "get_toc: cyclic Next never terminates (vector grows until the allocator fails)".into()),
+        ("F-C13-b2", "outl", mini(outlines_to(11), vec![(10, root(11)), (11, item(vec![("First", rf((11, 0)))]))]), "diverge", "get_outlines: cyclic First recurses until the stack overflows".into()),
+        ("F-C13-c", "outl", mini(outlines_to(11), vec![(10, root(11)), (11, item(vec![("Dest", Object::Array(vec![]))]))]), "panic@src/outlines.rs", "build_outline_result: Dest [] -> obj_array[0]".into()),
+        ("F-C13-c", "outl", mini(outlines_to(11), vec![(10, root(11)), (11, item(vec![("Dest", Object::Array(vec![rf((3, 0))]))]))]), "panic@src/outlines.rs", "build_outline_result: Dest [page] -> obj_array[1]".into()),
+        ("F-C13-d", "dests", names_doc(lit(b"k"), rf((31, 0)), vec![(31, Object::Dictionary(dict(vec![("X", Object::Null)])))]), "panic@src/destinations.rs", "get_named_destinations: destination dictionary without D -> unwrap".into()),
+        ("F-C13-d2", "dests", names_doc(lit(b"k"), rf((31, 0)), vec![(31, Object::Array(vec![rf((3, 0))]))]), "panic@src/destinations.rs", "get_named_destinations: destination array of length 1 -> val[1]".into()),
+        ("F-C13-d3", "dests", names_doc(name("k"), Object::Dictionary(dict(vec![("D", fit_dest())])), vec![]), "panic@src/destinations.rs", "get_named_destinations: key is not a string -> as_str().unwrap()".into()),
+        ("F-C13-d4", "dests", mini(vec![("Dests", rf((15, 0)))], vec![(15, Object::Dictionary(dict(vec![("Kids", Object::Array(vec![rf((15, 0))]))])))]), "diverge", "get_named_destinations: cyclic Kids recurses until the stack overflows".into()),
+        ("F-C13-f", "pages", count_doc(&[i64::MAX, i64::MAX, 2]), "panic@core:sum-overflow", "get_pages: size_hint sums Count values -> usize overflow".into()),
+        ("F-C13-f2", "pages", count_doc(&[1 << 62]), "panic@alloc:capacity-overflow", "get_pages: collect() reserves Count+1 elements -> capacity overflow".into()),
+        ("F-C13-f3", "pages", count_doc(&[1 << 40]), "panic@abort:alloc", "get_pages: collect() reserves Count+1 elements -> 12 TB allocation fails, process aborts".into()),
+    ];
+    let mut batch = vec![]; let mut docs = vec![]; let mut meta = vec![];
+    for (i, (fid, field, doc, expect, what)) in w.into_iter().enumerate() {
+        let Some(_r) = c.case("witness", i as u64) else { continue };
+        let targets = vec![(3, 0)];
+        let hz = analyse(&doc, &targets);
+        let req = request(&format!("one={}", field), &targets, &doc);
+        c.nontrivial(&req);
+        meta.push((fid.to_string(), field.to_string(), expect.to_string(), what, req.clone()));
+        batch.push(Pending { case_id: c.cur, stream: "witness".into(), req, doc_targets: targets, hazard: hz }); docs.push(doc);
+    }
+    let before = c.corr.len();
+    run_batch(c, batch, &docs);
+    for (k, (fid, field, expect, what, _req)) in meta.into_iter().enumerate() {
+        let got = c.corr.get(before + k).map(|x| x.impl_reply.clone()).unwrap_or_default();
+        let v = got.strip_prefix(&format!("{}=", field)).unwrap_or(&got).to_string();
+        c.witness(&fid, v.starts_with(&expect), &format!("{} — observed {}", what, v));
+    }
 }
